@@ -31,5 +31,38 @@ func specs() map[string]propSpec {
 		},
 		Components: realStub,
 	}
+	m["C15"] = propSpec{
+		ID: "C15",
+		Jobs: []job{
+			{Label: "envs", Pkg: "./sim/engines/c15", Env: []string{"VERIF_XPROC=1"}, Workers: [2]int{14, 16}, Checks: [2]int{0, 0}, Budget: [2]int{50, 900}},
+		},
+		Rule: "a record fixes one operation history: a program (synthetic, type-directed, biased to several imports per file, several files, imported XGo packages with several overload families and exported signatures reaching several XGo packages; or a real standard-library package) " +
+			"compiled by the minicl front end under an explicit front-end schedule (eager/on-demand declaration order, lazily loaded types, body order, file assignment) and fault plan (discarded references, aborted statements and initialisers). " +
+			"The history is executed under 4-6 environments that differ only in what must not matter: native runtime map order and real sync.Pool; every unordered iteration ascending / descending / tape-permuted; printer pool always fresh / always reused / tape; heap ballast, GC, GOGC; unrelated builds first in the same process; " +
+			"and batches of records are re-executed in fresh OS processes at GOMAXPROCS 1/4/16. Oracle: identical file set and identical bytes of every file. " +
+			"Non-trivial: >= 20 builder operations and at least one non-identity permutation applied; distinct = distinct (program shape, schedule, fault plan, operation-history hash).",
+		Assumptions: []string{
+			"heap addresses cannot be controlled in Go: ballast and fresh processes only perturb them (the evidence reports how often probe allocations changed order)",
+			"programs go/types rejects are never fed; programs gogen rejects are counted, not compared",
+			"diagnostics (order of errors reaching HandleErr) are not part of the compared output",
+			"sampling: a clean run is evidence for the histories and code paths reached, not a proof",
+		},
+		Components: realStub,
+	}
+	m["C16"] = propSpec{
+		ID: "C16",
+		Jobs: []job{
+			{Label: "model", Pkg: "./sim/engines/c16", Workers: [2]int{14, 16}, Checks: [2]int{0, 0}, Budget: [2]int{50, 900}},
+		},
+		Rule: "a record is a program (synthetic with every block-forming construct nested to depth 8, or a real standard-library package) plus a front-end schedule that makes the history nested and interrupted: on-demand declarations started with operands on the stack (file switched and restored), named types completed from the LoadNamed callback, " +
+			"and injected aborts (ill-typed operation inside a statement / initialiser / switch header, CallWithEx error, discarded operands) each followed by the documented recovery call. After every builder operation the executable reference model (documented arity per operation, stack of open constructs) is compared with InternalStack().Len(), " +
+			"and on every close with Scope(), Func(), InVBlock(), the current file and LookupLabel. Non-trivial: >= 20 operations and nesting >= 3; distinct = distinct operation-history hash.",
+		Assumptions: []string{
+			"the arity table is written from the API comments and the repository's tests; nothing is asserted between an abort and its documented recovery call",
+			"headers of if/for are never aborted (no documented recovery)",
+			"sampling: a clean run is evidence for the histories reached, not a proof",
+		},
+		Components: realStub,
+	}
 	return m
 }
